@@ -1,5 +1,7 @@
 import Deb822Verif.Driver.Proto
 import Deb822Verif.Model.DebParse
+import Deb822Verif.Model.DebAccess
+import Deb822Verif.Spec.DocGrammar
 namespace Deb822Verif.Driver.Deb
 open Deb822Verif Proto Deb
 
@@ -12,8 +14,50 @@ partial def dumpList : List DNode → String
   | n :: ns => " " ++ dump n ++ dumpList ns
 end
 
+def encItems (l : List (Str × Str)) : String :=
+  ",".intercalate (l.map fun kv => s!"{encStr kv.1}:{encStr kv.2}")
+
+def encDoc (d : List (List (Str × Str))) : String := ";".intercalate (d.map encItems)
+
+def decLine (f : String) : Option Spec.Line :=
+  match f.splitOn "." with
+  | ["b"] => some .blank
+  | ["c", t] => do pure (.comment (← decStr t))
+  | ["f", k, w, v] => do pure (.field (← decStr k) (← decStr w) (← decStr v))
+  | ["k", i, v] => do pure (.cont (← decStr i) (← decStr v))
+  | ["r", t] => do pure (.raw (← decStr t))
+  | _ => none
+
+def decLines (f : String) : Option (List Spec.Line) :=
+  if f.isEmpty then some [] else (f.splitOn ",").mapM decLine
+
+def dedup (l : List Str) : List Str := l.foldl (fun acc x => if acc.contains x then acc else acc ++ [x]) []
+
+/-- all lookups on one paragraph, for its own keys and one absent key -/
+def lookups (p : DNode) : String :=
+  let ks := dedup (keys p) ++ ["Zz".toList]
+  "|".intercalate (ks.map fun k =>
+    s!"{encOpt (get p k)}/{encList (getAll p k)}/{encBool (containsKey p k)}")
+
+def viewDoc (s : Str) : String :=
+  match readStrict s with
+  | .error _ => "err"
+  | .ok t =>
+    let ps := paragraphs t
+    let pfs := match ps with
+      | [] => "none"
+      | p :: _ => encItems (items p)
+    s!"ok {encDoc (docItems t)} K[{";".intercalate (ps.map fun p => encList (keys p))}] L[{";".intercalate (ps.map lookups)}] pfs:{pfs}"
+
 def handle (op : String) (args : List String) : Option String :=
   match op, args with
+  | "deb.doc", [ls, fnl] => do
+    let ls ← decLines ls
+    let text := Spec.render ls (fnl == "1")
+    pure s!"{encStr text} {viewDoc text}"
+  | "deb.view", [t] => do
+    let s ← decStr t
+    pure (viewDoc s)
   | "deb.read", [t] => do
     let s ← decStr t
     let r := parse s
